@@ -55,7 +55,7 @@ def func_src(ctx, fname, variant, gen):
 
 def ops(tier):
     out = [("DEF", "S", v) for v in S_VARIANTS] + [("DEF", "T", v) for v in T_VARIANTS]
-    out += [("DEL", "S"), ("DEL", "T"), ("DEFO",), ("DELO",), ("FEDIT",), ("FDEL",), ("CALL",)]
+    out += [("DEL", "S"), ("DEL", "T"), ("DEFO",), ("DELO",), ("FEDIT",), ("FDEL",)]  # every step is followed by a call of every name
     return out
 
 
@@ -64,6 +64,7 @@ class Model:
         self.funcs = {}  # (ctx, fname) -> dict(gen, names accepted:list, resp)
         self.owner = {}  # name -> ctx
         self.gen = 0
+        self.siblings = set()  # names that two different function variables declared at the same time
 
     def declarers(self, name):
         return [f for f in self.funcs.values() if name in f["names"]]
@@ -79,6 +80,9 @@ class Model:
                 accepted.append(nm)
         new = {"gen": self.gen, "names": accepted, "resp": resp, "ctx": ctx}
         old = self.funcs.get((ctx, fname))
+        for nm in accepted:
+            if any(nm in f["names"] for k, f in self.funcs.items() if k != (ctx, fname)):
+                self.siblings.add(nm)
         self.funcs[(ctx, fname)] = new
         if old:
             self._release(old, keep=new)
@@ -128,6 +132,42 @@ def run_seq(legacy, seq, final_unload=True):
                 return {"kind": "registry", "step": step, "op": list(op), "expected": sorted(want), "observed": sorted(have)}
             return None
 
+        def call_all(i, op):
+            nonlocal xcount
+            for nm in UNIVERSE:
+                xcount += 1
+                newest = m.newest(nm)
+                if newest is None:
+                    try:
+                        w.call_service(nm[0], nm[1], {"x": xcount})
+                        return {"kind": "call-of-missing-service-succeeded", "step": i, "op": list(op), "name": nm}
+                    except HomeAssistantError:
+                        pass
+                    continue
+                modes = {"none": [False], "optional": [False, True], "only": [True]}[newest["resp"]]
+                for rr in modes:
+                    xcount += 1
+                    n0 = len(runs)
+                    try:
+                        resp = w.call_service(nm[0], nm[1], {"x": xcount, "extra": "e"}, return_response=rr)
+                    except Exception as exc:  # noqa
+                        return {"kind": "call-raised", "step": i, "op": list(op), "name": nm, "detail": repr(exc)[:200]}
+                    got = [tuple(r[:5]) + (tuple(r[5]),) for r in runs[n0:]]
+                    fn = [k for k, f in m.funcs.items() if f is newest][0]
+                    exp = [(fn[0], fn[1], newest["gen"], "service", xcount, ("extra",))]
+                    if got != exp:
+                        kind = "wrong-definition-ran"
+                        live_gens = {f["gen"] for f in m.funcs.values()}
+                        if len(got) == 1 and got[0][2] not in live_gens:
+                            # a definition that no longer exists ran; separate root cause when the name was at some
+                            # point declared by two different function variables at once (sibling declarations)
+                            kind = "dead-definition-ran-after-sibling-removal" if nm in m.siblings else "dead-definition-ran"
+                        return {"kind": kind, "step": i, "op": list(op), "name": nm, "expected": exp, "observed": got}
+                    exp_resp = {"got": xcount, "gen": newest["gen"]} if rr else None
+                    if resp != exp_resp:
+                        return {"kind": "response", "step": i, "name": nm, "expected": exp_resp, "observed": resp}
+            return None
+
         for i, op in enumerate(seq):
             if op[0] == "DEF":
                 _, c, v = op
@@ -163,6 +203,10 @@ def run_seq(legacy, seq, final_unload=True):
                 w.remove("a.py")
                 w.reload()
             elif op[0] == "CALL":
+                fail = call_all(i, op)
+                if fail:
+                    return fail, trace, m
+            if False:
                 for nm in UNIVERSE:
                     xcount += 1
                     newest = m.newest(nm)
@@ -196,6 +240,8 @@ def run_seq(legacy, seq, final_unload=True):
             w.collect()
             w.collect()
             fail = check_registry(i, op)
+            if fail is None and op[0] != "CALL":
+                fail = call_all(i, op)
             trace.append((op, sorted(m.registered())))
             if fail:
                 return fail, trace, m
@@ -317,11 +363,13 @@ def run_shard(shard):
                 continue
             fail, trace, m = run_seq(legacy, seq)
             case = {"engine": "in", "legacy": legacy, "seq": [list(o) for o in seq]}
-            ran = any(o[0] == "CALL" for o in seq) and bool(m.registered())
+            ran = bool(m.registered()) or any(t[1] for t in trace)
             res.case((tuple(map(tuple, (t[1] for t in trace)))), nontrivial=ran, transitions=len(seq),
                      config="in/" + ("legacy" if legacy else "new"), sample=case, state=tuple(sorted(m.registered())))
             if fail:
                 feat = "+".join(sorted({o[2] for o in seq if o[0] == "DEF" and o[2] in ("V3", "V4")})) or "-"
+                if fail["kind"] == "dead-definition-ran-after-sibling-removal":
+                    feat = "*"
                 res.fail(f"in|{'legacy' if legacy else 'new'}|{fail['kind']}|{feat}", case, expected=fail.get("expected"),
                          observed=fail.get("observed"), detail=fail)
     else:
